@@ -2,7 +2,7 @@
    Field tags (-100-i) are interleaved so that a disagreement can be located. *)
 From stdpp Require Import gmap.
 From Coq Require Import ZArith List.
-From V Require Import Base.Codec Base.Res Base.ResCodec C16.SatModel C16.Laws C16.DraModel C16.QuantModel C16.DraLaws.
+From V Require Import Base.Codec Base.Res Base.ResCodec C16.SatModel C16.Laws C16.DraModel C16.QuantModel C16.DraLaws C16.OrderLemmas.
 Import ListNotations.
 Open Scope Z_scope.
 
@@ -29,7 +29,10 @@ Definition res_all (eps : Z) (r rr req : res) : list Z :=
   tag 17 ++ (let '(i, d) := diff_zero r rr in eRes i ++ eRes d) ++
   tag 18 ++ eBool (is_empty eps r) ++ eNames (names_of eps r) ++
   tag 19 ++ eRes (multi r 3) ++
-  tag 20 ++ eBool (greater_partly eps r rr DZero) ++ eBool (greater_partly eps r rr DInf).
+  tag 20 ++ eBool (greater_partly eps r rr DZero) ++ eBool (greater_partly eps r rr DInf) ++
+  (* Resource.Sub with its assertion: 0 = the assertion panics, else the result *)
+  tag 22 ++ (match sub_assert eps r rr with SubPanic => [0] | SubOk s => 1 :: eRes s end) ++
+  tag 23 ++ eBool (less rr r DZero) ++ eBool (less rr r DInf).
 
 (* the comparisons only (no arithmetic): used on magnitudes where float64 arithmetic is not exact
    but comparisons still are — integers up to 2^62 and the math.MaxFloat64 sentinel *)
@@ -62,8 +65,16 @@ Definition entry (sel : Z) (toks : list Z) : list Z :=
   | 3 => match run_dec (dList (dPair dZ dZ)) toks with
          | Some l => [fold_left (fun acc ct => dra_accumulate acc (fst ct) (snd ct)) l 0]
          | None => bad_input end
-  | 4 => match run_dec (dPair dZ dZ) toks with
-         | Some (x, _) => [float_of_quantity (quantity_of_float x)] | None => bad_input end
+  (* ResFloat642Quantity then ResQuantity2Float64 on the float x/g: the quantity (milli), the float back *)
+  | 4 => match run_dec (let* g := dZ in let* x := dZ in let* i := dZ in ret (g, x, i)) toks with
+         | Some (g, x, i) => let c := i =? 0 in
+                             let q := float_to_quantity g c x in [q; 1; quantity_to_float g c q]
+         | None => bad_input end
+  (* ResQuantity2Float64 then ResFloat642Quantity on the quantity m (milli): integral flag, float, quantity back *)
+  | 13 => match run_dec (dPair dZ dZ) toks with
+          | Some (m, i) => let c := i =? 0 in
+                           let f := quantity_to_float 1 c m in [1; f; float_to_quantity 1 c f]
+          | None => bad_input end
   (* JobInfo.GetMinDRAResources on a real JobInfo: nil flag, then class -> (count, capacities) *)
   | 5 => match run_dec dJob toks with
          | Some j => eOpt eDmap (get_min_dra j) | None => bad_input end
@@ -76,6 +87,9 @@ Definition entry (sel : Z) (toks : list Z) : list Z :=
   (* util.ConvertRes2ResList on a Resource (unit grid) *)
   | 8 => match run_dec dRes toks with
          | Some r => eRlist (convert r) | None => bad_input end
+  (* SchedulerCache.buildTaskDRAInfo: the aggregated and the per-claim DRA requests of a pod *)
+  | 9 => match run_dec dBuildInput toks with
+         | Some (claims, refs) => eBuild (build_task_dra claims refs) | None => bad_input end
   | 10 => match run_dec (let* e := dZ in let* r := dRes in let* rr := dRes in let* q := dRes in ret (e, r, rr, q)) toks with
           | Some (e, r, rr, q) => res_all e r rr q
           | None => bad_input end
@@ -94,8 +108,17 @@ Definition entry (sel : Z) (toks : list Z) : list Z :=
            | Some (a, b, g) => eBool (law_sat_mul a b g) | None => bad_input end
   | 103 => match run_dec (dPair (dList (dPair dZ dZ)) dZ) toks with
            | Some (l, g) => eBool (law_dra l g) | None => bad_input end
-  | 104 => match run_dec (dPair dZ dZ) toks with
-           | Some (x, g) => eBool (bool_decide (g = x)) | None => bad_input end
+  | 104 => match run_dec (let* g := dZ in let* x := dZ in let* i := dZ in let* q := dZ in let* mant := dZ in
+                          let* e := dZ in ret (g, x, i, q, mant, e)) toks with
+           | Some (g, x, i, q, mant, e) => eBool (law_f2q2f g (i =? 0) x q mant e) | None => bad_input end
+  | 114 => match run_dec (let* a := dBool in let* b := dBool in let* c := dBool in let* d := dBool in
+                          let* e := dBool in ret (a, b, c, d, e)) toks with
+           | Some (a, b, c, d, e) => eBool (law_partial a b c d e) | None => bad_input end
+  | 116 => match run_dec (dPair dBool dBool) toks with
+           | Some (a, b) => eBool (law_sub_assert a b) | None => bad_input end
+  | 115 => match run_dec (let* m := dZ in let* i := dZ in let* mant := dZ in let* e := dZ in let* b := dZ in
+                          ret (m, i, mant, e, b)) toks with
+           | Some (m, i, mant, e, b) => eBool (law_q2f2q m (i =? 0) mant e b) | None => bad_input end
   | 105 => match run_dec (dPair dJob (dOpt dDmap)) toks with
            | Some (j, g) => eBool (law_min_dra j g) | None => bad_input end
   | 106 => match run_dec (let* j := dJob in let* j' := dJob in let* g := dOpt dDmap in let* g' := dOpt dDmap in
@@ -110,6 +133,8 @@ Definition entry (sel : Z) (toks : list Z) : list Z :=
   | 121 => match run_dec (let* rl := dRlist in let* r := dRes in let* mt := dZ in let* rl' := dRlist in
                           ret (rl, r, mt, rl')) toks with
            | Some (rl, r, mt, rl') => eBool (law_rt_list rl r mt rl') | None => bad_input end
+  | 109 => match run_dec (dPair dBuildInput dBuildGot) toks with
+           | Some ((claims, refs), g) => eBool (law_task_dra claims refs g) | None => bad_input end
   | 110 => match run_dec (let* r := dRes in let* x := dRes in let* ra := dRes in let* rs := dRes in
                           let* rb := dRes in ret (r, x, ra, rs, rb)) toks with
            | Some (r, x, ra, rs, rb) => eBool (law_group r x ra rs rb) | None => bad_input end
